@@ -248,11 +248,22 @@ class MemInterp(TriInterp):
                         if name in ("split", "partition", "rpartition",
                                     "rsplit"):
                             res.append((q, V("rawlist")))
+                        elif name == "isascii":
+                            # both answers are possible; the one given is
+                            # remembered on the path (it decides whether a
+                            # later decode('ascii') can raise)
+                            q1, q2 = q.fork(), q.fork()
+                            q1.env["__ascii__"] = True
+                            q2.env["__ascii__"] = False
+                            res.append((q1, V("const", True)))
+                            res.append((q2, V("const", False)))
                         elif name == "decode":
-                            # bytes outside the codec raise
-                            outs.append(Outcome("raise",
-                                                "UnicodeDecodeError",
-                                                q.bytes))
+                            # bytes outside the codec raise - unless the
+                            # path has asked isascii() and was told yes
+                            if q.env.get("__ascii__") is not True:
+                                outs.append(Outcome("raise",
+                                                    "UnicodeDecodeError",
+                                                    q.bytes))
                             res.append((q, STR))
                         elif name in ("hex",):
                             res.append((q, STR))
